@@ -155,11 +155,21 @@ type outcome struct {
 	Extra  string
 }
 
+// rateLimited: the scenario's tokens are configured with tokens.<name>.ratelimit
+var rateLimited bool
+
 func mkConfig(audit string) *config.Config {
 	cfg := relicx.ServerConfig(faketoken.Type)
 	cfg.AuditFile = audit
 	cfg.Keys["aliasA"] = &config.KeyConfig{Alias: "rsaA"}
 	cfg.Server.TokenCacheSeconds = 600
+	if rateLimited {
+		// a limit far above anything the scenario can reach: the limiter is in
+		// the path (it is what hands out the cached key objects) but never delays
+		for _, t := range cfg.Tokens {
+			t.RateLimit, t.RateBurst = 1e9, 1000
+		}
+	}
 	if err := cfg.Normalize(""); err != nil {
 		panic(err)
 	}
@@ -193,7 +203,11 @@ func perform(srv *server.Server, h http.Handler, o op) outcome {
 		// write of response bytes is a scheduling point
 		w = pointWriter{rec}
 	}
-	h.ServeHTTP(w, o.request())
+	// as in net/http, a request's context ends when its handler returns
+	req := o.request()
+	rctx, done := context.WithCancel(req.Context())
+	h.ServeHTTP(w, req.WithContext(rctx))
+	done()
 	body := rec.Body.Bytes()
 	if rec.Header().Get("Content-Encoding") == "gzip" {
 		zr, err := gzip.NewReader(bytes.NewReader(body))
@@ -298,6 +312,11 @@ func scenarios(thorough bool) []scenario {
 		// other request for the same key must not notice
 		{"same-key-one-client-hangs-up", [][]op{{sLeave}, {sA2}, {{Kind: "hangup", Target: sLeave.Name}}}},
 		// clients that take gzip responses: one response completes, then two overlap
+		// tokens.<name>.ratelimit configured: the limiter hands out the key objects
+		// the cache keeps; a later request gets the object an earlier, finished or
+		// abandoned request fetched
+		{"rate-limited-key-reused-after-request-ended", [][]op{{sA, sA2}, {sB}}},
+		{"rate-limited-same-key-one-client-hangs-up", [][]op{{sLeave}, {sA2}, {{Kind: "hangup", Target: sLeave.Name}}}},
 		{"gzip-responses-overlap-after-an-earlier-one", [][]op{{gz(sA, "g1.ps1"), gz(sB, "g2.ps1")}, {gz(sA2, "g3.ps1")}}},
 	}
 	if thorough {
@@ -332,6 +351,7 @@ func auditNames(blob []byte) (names []string, torn int) {
 
 // isolation runs every op alone on a fresh server: the expected responses.
 func isolation(sc scenario) map[string]outcome {
+	rateLimited = strings.HasPrefix(sc.Name, "rate-limited-")
 	exp := map[string]outcome{}
 	for _, th := range sc.Threads {
 		for _, o := range th {
@@ -357,6 +377,7 @@ func isolation(sc scenario) map[string]outcome {
 }
 
 func schedPhase() {
+	defer func() { rateLimited = false }()
 	for _, sc := range scenarios(run.Thorough()) {
 		bound := 2
 		if run.Thorough() && len(sc.Threads) < 3 {
